@@ -50,7 +50,9 @@ Import ListNotations.
 Open Scope Z_scope.
 """
 BASE_CODE = {"A": 0, "C": 1, "G": 2, "T": 3, "N": 4}
-SIG_PRE = "haplotagphase:prephased-altered"
+SIG_PRE = "haplotagphase:prephased-altered"                      # phased het call with a PS id (what VcfReader recognises)
+SIG_NOPS = "haplotagphase:prephased-without-ps-altered"          # phased het call without a PS value
+SIG_UNREC = "haplotagphase:prephased-unrecognised-unphased"      # homozygous `a|a`, `|` on a record the writer skips
 
 
 # =============================================================================== input construction
@@ -127,15 +129,76 @@ def simulate_region_reads(rng, sc, sample, chrom, lo, hi, cov, len_range, prefix
     return reads
 
 
+def parse_calls(f):
+    """[(GT text, PS text or None)] of a VCF line split into fields (FORMAT GT or GT:PS)"""
+    fmt = f[8].split(":")
+    out = []
+    for c in f[9:]:
+        v = c.split(":")
+        out.append((v[fmt.index("GT")], v[fmt.index("PS")] if "PS" in fmt and len(v) > fmt.index("PS") else None))
+    return out
+
+
+def build_line(f, calls, with_ps):
+    f = list(f[:9])
+    f[8] = "GT:PS" if with_ps else "GT"
+    return "\t".join(f + [(f"{g}:{'.' if p_ is None else p_}" if with_ps else g) for g, p_ in calls])
+
+
+def add_extra_records(rng, sc, path):
+    """insert (unphased) a record without ALT and a second record at the position of an SNV; returns their keys"""
+    lines = open(path).read().splitlines()
+    head = [l for l in lines if l.startswith("#")]
+    body = [l.split("\t") for l in lines if not l.startswith("#")]
+    keys = set()
+    new = []
+    for c in sc.chroms:
+        idx = [i for i, f in enumerate(body) if f[0] == c]
+        if not idx:
+            continue
+        ns = len(body[idx[0]]) - 9
+        i = rng.choice(idx)
+        f = body[i]
+        p0 = int(f[1]) - 1 + len(f[3]) + 8                       # 0-based, inside the gap behind the record
+        if p0 < len(sc.ref[c]) - 1 and rng.random() < 0.8:
+            g = [c, str(p0 + 1), ".", sc.ref[c][p0], ".", ".", "PASS", ".", "GT"] + ["0/0"] * ns
+            new.append((i + 0.5, g))
+            keys.add((c, g[1], g[4]))
+        snvs = [j for j in idx if len(body[j][3]) == 1 and len(body[j][4]) == 1]
+        if snvs and rng.random() < 0.8:
+            j = rng.choice(snvs)
+            f = body[j]
+            alt = [x for x in "ACGT" if x not in (f[3], f[4])][0]
+            g = [c, f[1], ".", f[3], alt, ".", "PASS", ".", "GT"] + ["0/1"] * ns
+            new.append((j + 0.25, g))
+            keys.add((c, g[1], g[4]))
+    allr = sorted([(float(i), f) for i, f in enumerate(body)] + new, key=lambda x: x[0])
+    with open(path, "w") as fh:
+        fh.write("\n".join(head + ["\t".join(f) for _, f in allr]) + "\n")
+    return keys
+
+
 def make_spec(rng, stream):
     spec = dict(seed=rng.randrange(1 << 40), stream=stream,
                 nvars=rng.randint(5, 14), nsamples=rng.choice([1, 1, 1, 2]), nchrom=rng.choice([1, 1, 1, 2]),
                 het=rng.choice([0.7, 0.85, 1.0]), ngroups=rng.randint(1, 4), cov=rng.choice([3, 5, 8, 11]),
                 homop=rng.choice([0.0, 0.4, 0.8]), phi=rng.choice(["phase", "phase", "synthetic"]),
                 bmode=rng.choice(["same", "same", "subsample", "window"]),
-                prephase=0.0, foreign=False, params=None)
+                prephase=0.0, foreign=False, params=None, unrec=0.0, extras=False, nomav=False)
     if stream == "prephased":
         spec["prephase"] = rng.choice([0.3, 0.6, 1.0])
+        # a modest share of pre-phased calls that VcfReader does not recognise as phased
+        spec["unrec"] = rng.choice([0.0, 0.0, 0.25, 0.5])
+        spec["extras"] = rng.random() < 0.3
+        spec["nomav"] = rng.random() < 0.15
+        if spec["nsamples"] == 2 and rng.random() < 0.3:
+            spec["bmode"] = "dropsample"
+    elif stream == "unrecognised":
+        spec["prephase"] = rng.choice([0.3, 1.0])
+        spec["unrec"] = rng.choice([0.6, 1.0])
+        spec["extras"] = rng.random() < 0.6
+        spec["nomav"] = rng.random() < 0.3
+        spec["het"] = rng.choice([0.5, 0.7])
     elif stream == "bridged":
         spec["phi"] = "bridged"
         spec["prephase"] = rng.choice([0.0, 0.3])
@@ -168,7 +231,7 @@ def decode_vcf(path):
                 ps = c["PS"] if pskey else None
                 calls.append((gt, bool(c.phased), ps))
             snv = len(rec.ref) == 1 and len(rec.alts or ()) == 1 and len(rec.alts[0]) == 1 and rec.alts[0] != rec.ref
-            out.setdefault(rec.chrom, []).append((rec.start, snv, pskey, calls))
+            out.setdefault(rec.chrom, []).append((rec.start, snv, pskey, calls, len(rec.alts or ())))
     return samples, out
 
 
@@ -239,6 +302,8 @@ def _run_pipeline(spec, impl, d):
         w0 = vs[i].pos - rng.randint(0, 60) if vs else 0
         w1 = vs[min(len(vs) - 1, i + rng.randint(0, 2))].pos + rng.randint(1, 60) if vs else 0
         reads_b = [r for r in reads_a if not (r["chrom"] == c and r["start"] < w1 and r["end"] > w0)]
+    elif spec["bmode"] == "dropsample":
+        reads_b = [r for r in reads_a if r["sample"] == sc.samples[0]]      # the last sample has no reads at all
     else:
         reads_b = list(reads_a)
     fa = synth.write_fasta(sc, os.path.join(d, "ref.fa"))
@@ -285,6 +350,7 @@ def _run_pipeline(spec, impl, d):
                                 flipped.haps[s][c][i] = (b, a)
         synth.write_vcf(flipped, phased, phased=ph)
         res["steps"]["phase"] = 0
+    extra_keys = add_extra_records(rng, sc, phased) if spec.get("extras") else set()
     pysam.tabix_index(phased, preset="vcf", force=True, keep_original=True)
 
     # ---- step 2: haplotag
@@ -309,9 +375,41 @@ def _run_pipeline(spec, impl, d):
     assert len(pbody) == len(ubody)
     body = []
     nkept = 0
+    unrec = spec.get("unrec", 0.0)
     for pl, ul in zip(pbody, ubody):
-        if "|" in pl.split("\t", 9)[9] and rng.random() < spec["prephase"]:
-            f = pl.split("\t")
+        fp = pl.split("\t")
+        is_extra = (fp[0], fp[1], fp[4]) in extra_keys
+        pcalls = parse_calls(fp)
+        has_phase = any("|" in g for g, _ in pcalls)
+        has_hom = any("|" not in g and len(set(g.split("/"))) == 1 and "." not in g for g, _ in pcalls)
+        if is_extra:
+            # a record the reader and the writer skip (no ALT / duplicate position), written phased
+            if rng.random() < 0.7:
+                ps = rng.choice([4242, int(fp[1])])
+                body.append(build_line(fp, [(g.replace("/", "|"), ps) for g, _ in pcalls], True))
+                nkept += 1
+            else:
+                body.append(ul)
+            continue
+        choices = (["hom"] if has_hom else []) + (["nops", "psdot"] if has_phase else [])
+        if choices and rng.random() < unrec:
+            mode = rng.choice(choices)
+            keep = has_phase and rng.random() < max(spec["prephase"], 0.5)
+            base = pcalls if (keep or mode != "hom") else parse_calls(ul.split("\t"))
+            if mode == "hom":
+                pss = [p_ for g, p_ in pcalls if p_ not in (None, ".")]
+                ps = rng.choice(pss + [4242])
+                calls = [((g.replace("/", "|"), ps) if ("|" not in g and len(set(g.split("/"))) == 1 and "." not in g
+                                                        and rng.random() < 0.8) else (g, p_)) for g, p_ in base]
+                body.append(build_line(fp, calls, True))
+            elif mode == "nops":
+                body.append(build_line(fp, [(g, None) for g, _ in base], False))        # FORMAT = GT
+            else:
+                body.append(build_line(fp, [(g, "." if "|" in g else p_) for g, p_ in base], True))
+            nkept += 1
+            continue
+        if has_phase and rng.random() < spec["prephase"]:
+            f = list(fp)
             if spec["foreign"] and rng.random() < 0.5 and f[8] == "GT:PS":
                 g, ps = f[9].split(":")
                 if "|" in g:
@@ -321,6 +419,14 @@ def _run_pipeline(spec, impl, d):
             nkept += 1
         else:
             body.append(ul)
+    if spec.get("nomav"):
+        # multi-ALT records (skipped under --no-mav): a second, unused ALT allele on some SNV records
+        for i, l in enumerate(body):
+            f = l.split("\t")
+            if len(f[3]) == 1 and len(f[4]) == 1 and f[4] in "ACGT" and (f[0], f[1], f[4]) not in extra_keys \
+                    and rng.random() < 0.3:
+                f[4] = f[4] + "," + [x for x in "ACGT" if x not in (f[3], f[4])][0]
+                body[i] = "\t".join(f)
     inp = os.path.join(d, "inp.vcf")
     with open(inp, "w") as f:
         f.write("\n".join(phead + body) + "\n")
@@ -336,6 +442,8 @@ def _run_pipeline(spec, impl, d):
         extra += ["--cut-poly", pr["cut"]]
     if pr.get("only_indels"):
         extra += ["--only-indels"]
+    if spec.get("nomav"):
+        extra += ["--no-mav"]
     rc, so, se = _cli(impl, ["haplotagphase", "--reference", fa, "-o", final] + extra + [inp, tagged], d)
     res["steps"]["haplotagphase"] = rc
     if rc != 0:
@@ -367,7 +475,8 @@ def _run_pipeline(spec, impl, d):
         final2 = os.path.join(d, "final_inproc.vcf")
         H.run_haplotagphase(variant_file=inp, alignment_file=tagged, reference=fa, output=final2,
                             write_command_line_header=False, gap_threshold=pr.get("gap", 70),
-                            cut_poly=pr.get("cut", 10), only_indels=bool(pr.get("only_indels")))
+                            cut_poly=pr.get("cut", 10), only_indels=bool(pr.get("only_indels")),
+                            mav=not spec.get("nomav"))
     finally:
         H.compute_votes, H.consensus = cv0, cs0
     b1 = [l for l in open(final).read().splitlines() if not l.startswith("##")]
@@ -406,7 +515,7 @@ def _run_pipeline(spec, impl, d):
                     sets.append(ps)
             rsets.append(sets)
         res["chroms"][c] = dict(ref=[BASE_CODE.get(b, 4) for b in sc.ref[c]], orig=orig, inp=inpt, out=out,
-                                reads=readss, votes=votes, cst=csts, cover=cover, rsets=rsets)
+                                reads=readss, votes=votes, cst=csts, cover=cover, rsets=rsets, mav=not spec.get("nomav"))
     assert ci == len(cap), (ci, len(cap))
     return res
 
@@ -462,14 +571,17 @@ def case_term(spec, ch):
     votes = "[" + "; ".join(votes_term(v) if v else "(@nil (Z * inner))" for v in ch["votes"]) + "]"
     csts = "[" + "; ".join(cst_term(c) for c in ch["cst"]) + "]"
     return (f"(mkCase {params} {_zl(ch['ref'])} {table_term(ch['orig'])} {table_term(ch['inp'])} "
-            f"{table_term(ch['out'])} {reads} {votes} {csts} {cover} {rsets})")
+            f"{table_term(ch['out'])} {reads} {votes} {csts} {cover} {rsets} {term(bool(ch.get('mav', True)))} "
+            f"{_zl([r[4] for r in ch['inp']])})")
 
 
 CHECKS = {
     "proviso": "l1_proviso",
     "L1order": "l1_order",
     "L1ps": "l1_ps",
-    "L1pre": "l1_prephased",
+    "L1pre0": "l1_prephased_class 0",
+    "L1pre1": "l1_prephased_class 1",
+    "L1pre2": "l1_prephased_class 2",
     "L2cur": "l2_run Cur",
     "L2fix": "l2_run Fixed",
     "L2votes": "l2_votes",
@@ -479,7 +591,7 @@ CHECKS = {
     "Hef": "hyp_error_free",
     "Hsites": "hyp_sites",
 }
-CONSISTENT_STREAMS = ("plain", "prephased", "params", "foreign")   # the phased VCF is a phasing of the reads' haplotypes
+CONSISTENT_STREAMS = ("plain", "prephased", "unrecognised", "params", "foreign")   # the phased VCF is a phasing of the reads' haplotypes
 
 
 # =============================================================================== python-side summaries
@@ -496,12 +608,32 @@ def nontrivial(ch):
     return False
 
 
-def altered_prephased(ch):
+def skip_flags(ch):
+    """python mirror of HaplotagPhase.skip_flags (messages and tallies only)"""
+    mav, prev, out = ch.get("mav", True), None, []
+    for r in ch["inp"]:
+        if r[4] == 0 or (r[4] > 1 and not mav) or prev == r[0]:
+            out.append(True)
+        else:
+            out.append(False)
+            prev = r[0]
+    return out
+
+
+def call_class(skip, pskey, c):
+    het = len(c[0]) == 2 and None not in c[0] and c[0][0] != c[0][1]
+    if not skip and het:
+        return 0 if (pskey and c[2] is not None) else 1
+    return 2
+
+
+def altered_prephased(ch, cls=None):
     out = []
-    for ri, ro in zip(ch["inp"], ch["out"]):
+    for sk, ri, ro in zip(skip_flags(ch), ch["inp"], ch["out"]):
         for si, (ci, co) in enumerate(zip(ri[3], ro[3])):
             if ci[1] and (ci[0] != co[0] or ci[1] != co[1] or ci[2] != co[2]):
-                out.append((ri[0] + 1, si, ci, co))
+                if cls is None or call_class(sk, ri[2], ci) == cls:
+                    out.append((ri[0] + 1, si, ci, co))
     return out
 
 
@@ -542,6 +674,12 @@ def run_specs(ctx, specs, label):
             ctx.tally("records", len(ch["inp"]))
             ctx.tally("reads", sum(len(x) for x in ch["reads"]))
             ctx.tally("prephased_calls", sum(1 for rec in ch["inp"] for c_ in rec[3] if c_[1]))
+            for sk, rec in zip(skip_flags(ch), ch["inp"]):
+                if sk:
+                    ctx.tally("records_skipped_by_reader_and_writer")
+                for c_ in rec[3]:
+                    if c_[1]:
+                        ctx.tally("prephased_calls.class%d" % call_class(sk, rec[2], c_))
             ctx.tally("newly_phased_calls", sum(1 for ri, ro in zip(ch["inp"], ch["out"])
                                                 for a, b in zip(ri[3], ro[3]) if b[1] and not a[1]))
     if not cases:
@@ -558,12 +696,16 @@ def report(ctx, meta, failing):
     prov_fail = set(failing["proviso"])
     ctx.tally("cases.proviso_holds", n - len(prov_fail))
     ctx.tally("cases.proviso_fails", len(prov_fail))
-    for i in failing["L1pre"]:
-        spec, c, ch = meta[i]
-        alt = altered_prephased(ch)
-        what = "; ".join(f"{c}:{p} sample#{si} {fmt_call(a)} -> {fmt_call(b)}" for p, si, a, b in alt[:4])
-        ctx.violation(SIG_PRE, "haplotagphase alters calls that are already phased in its input: " + what +
-                      f" (pipeline spec {spec})", {"spec": spec})
+    for cls, lab, sig, txt in (
+            (0, "L1pre0", SIG_PRE, "haplotagphase alters calls that are already phased in its input"),
+            (1, "L1pre1", SIG_NOPS, "haplotagphase alters heterozygous calls written with `|` but without a PS value"),
+            (2, "L1pre2", SIG_UNREC, "haplotagphase unphases calls written with `|` that VcfReader does not regard as "
+                                     "phased (homozygous, or on a record without ALT / at a duplicate position / multi-ALT under --no-mav)")):
+        for i in failing[lab]:
+            spec, c, ch = meta[i]
+            alt = altered_prephased(ch, cls)
+            what = "; ".join(f"{c}:{p} sample#{si} {fmt_call(a)} -> {fmt_call(b)}" for p, si, a, b in alt[:4])
+            ctx.violation(sig, f"{txt}: {what} (pipeline spec {spec})", {"spec": spec})
     for lab, sig, txt in (("L1order", "haplotagphase:order-differs",
                            "a variant phased by haplotagphase has another haplotype order than in the phased VCF that tagged the reads"),
                           ("L1ps", "haplotagphase:ps-differs",
@@ -571,7 +713,7 @@ def report(ctx, meta, failing):
         for i in failing[lab]:
             spec, c, ch = meta[i]
             ctx.violation(sig, f"{txt} (chromosome {c}, pipeline spec {spec})", {"spec": spec})
-    # L2: the code follows the model with the current rule, or (after the repair) with the repaired rule
+    # L2: the code follows the model with the repaired rule (Fixed); a tree that follows Cur is a disagreement
     cur_bad = sorted(set(failing["L2cur"]) | set(failing["L2consCur"]))
     fix_bad = sorted(set(failing["L2fix"]) | set(failing["L2consFix"]))
     l2 = []
@@ -586,10 +728,9 @@ def report(ctx, meta, failing):
               sum(1 for i in range(n) if i not in prov_fail and meta[i][0]["stream"] in CONSISTENT_STREAMS) - len(prem_bad))
     if prem_bad:
         l2.append(("premises of C17_consensus_reproduces (error_free, same sites) hold on the generated pipelines", prem_bad))
-    if cur_bad and fix_bad:
-        which = cur_bad if len(cur_bad) <= len(fix_bad) else fix_bad
-        l2.append(("HaplotagPhase.haplotagphase/consensus = run_haplotagphase/consensus (L2)", which))
-    rule = "Cur" if not cur_bad else ("Fixed" if not fix_bad else "neither")
+    if fix_bad:
+        l2.append(("HaplotagPhase.haplotagphase_file Fixed / consensus Fixed = run_haplotagphase / consensus (L2)", fix_bad))
+    rule = "Fixed" if not fix_bad else ("Cur" if not cur_bad else "neither")
     return rule, l2
 
 
@@ -601,8 +742,19 @@ def run(ctx):
                       phi="synthetic", bmode="window", prephase=1.0, foreign=False, params=None))
     specs.append(dict(seed=18, stream="plain", nvars=8, nsamples=1, nchrom=1, het=0.85, ngroups=2, cov=8, homop=0.8,
                       phi="phase", bmode="same", prephase=0.0, foreign=False, params=None))
-    plan = [("plain", ctx.n(14, 200)), ("prephased", ctx.n(12, 160)), ("bridged", ctx.n(4, 40)),
-            ("noisy", ctx.n(4, 40)), ("params", ctx.n(4, 40)), ("foreign", ctx.n(3, 30))]
+    # corpus: pre-phased calls that VcfReader does not recognise as phased (homozygous a|a, a|b without PS,
+    # records without ALT / at a duplicate position, multi-ALT under --no-mav, a sample without reads)
+    specs.append(dict(seed=21, stream="unrecognised", nvars=6, nsamples=1, nchrom=1, het=0.5, ngroups=1, cov=5, homop=0.0,
+                      phi="synthetic", bmode="same", prephase=1.0, foreign=False, params=None, unrec=1.0, extras=True,
+                      nomav=False))
+    specs.append(dict(seed=22, stream="unrecognised", nvars=7, nsamples=2, nchrom=1, het=0.7, ngroups=2, cov=5, homop=0.0,
+                      phi="phase", bmode="dropsample", prephase=1.0, foreign=False, params=None, unrec=0.6, extras=True,
+                      nomav=False))
+    specs.append(dict(seed=23, stream="unrecognised", nvars=8, nsamples=1, nchrom=1, het=0.7, ngroups=2, cov=8, homop=0.0,
+                      phi="phase", bmode="same", prephase=0.6, foreign=False, params=None, unrec=0.3, extras=False,
+                      nomav=True))
+    plan = [("plain", ctx.n(14, 200)), ("prephased", ctx.n(12, 160)), ("unrecognised", ctx.n(4, 50)),
+            ("bridged", ctx.n(4, 40)), ("noisy", ctx.n(4, 40)), ("params", ctx.n(4, 40)), ("foreign", ctx.n(3, 30))]
     for stream, k in plan:
         for _ in range(k):
             specs.append(make_spec(rng, stream))
